@@ -396,8 +396,10 @@ def compute_dynamics_with_field(
             if step == 0:
                 field = initial_field
             else:
+                # Heun step from the previous grid time t - dt to t
                 field = compute_field(
-                    t, dt, previous_state_list, field, state_list)
+                    start_time + (step - 1) * dt, dt,
+                    previous_state_list, field, state_list)
             previous_state_list = state_list
             if record_all:
                 system_states_list.append(state_list)
@@ -467,8 +469,9 @@ def compute_dynamics_with_field(
         if num_steps == 0:
             final_field = initial_field
         else:
-            final_field = compute_field(t, dt, previous_state_list, field,
-                                        final_state_list)
+            final_field = compute_field(
+                start_time + (num_steps - 1) * dt, dt,
+                previous_state_list, field, final_state_list)
         field_list.append(final_field)
 
         prog_bar.update(num_steps)
